@@ -584,4 +584,297 @@ theorem getDictInfo_eq (d : Dict) : getDictInfo d =
       simp [this, ht]
 
 
+/-! ### the 20-byte table entry -/
+
+
+theorem len_succ {α : Type} {l : List α} {n : Nat} (h : l.length = n + 1) :
+    ∃ a t, l = a :: t ∧ t.length = n := by
+  cases l with
+  | nil => simp at h
+  | cons a t => exact ⟨a, t, rfl, by simpa using h⟩
+
+theorem isDigit_eq_isDig : Xref.isDigit = XrefSpec.isDig := by
+  funext b
+  simp [Xref.isDigit, XrefSpec.isDig, UInt8.le_iff_toNat_le]
+
+theorem foldl_dec (ds : Bytes) : ∀ acc, ds.foldl (fun a (c : UInt8) => a * 10 + (c.toNat - 48)) acc
+    = acc * 10 ^ ds.length + decOf ds := by
+  induction ds with
+  | nil => intro acc; simp [decOf]
+  | cons d t ih =>
+    intro acc
+    simp only [List.foldl_cons, ih, decOf, List.length_cons, Nat.pow_succ]
+    rw [Nat.add_mul, Nat.mul_assoc, Nat.mul_comm 10 (10 ^ t.length)]
+    omega
+
+theorem decVal_eq_decOf (ds : Bytes) : decVal ds = decOf ds := by
+  simp [decVal, foldl_dec]
+
+/-- an all-digit string of length `n` denotes a number below `10^n` -/
+theorem decOf_lt (ds : Bytes) (h : ds.all XrefSpec.isDig = true) : decOf ds < 10 ^ ds.length := by
+  induction ds with
+  | nil => simp [decOf]
+  | cons d t ih =>
+    simp only [List.all_cons, Bool.and_eq_true] at h
+    have := ih h.2
+    have hd : d.toNat - 48 ≤ 9 := by
+      have := h.1; simp [XrefSpec.isDig] at this; omega
+    simp only [decOf, List.length_cons, Nat.pow_succ]
+    have : (d.toNat - 48) * 10 ^ t.length ≤ 9 * 10 ^ t.length := Nat.mul_le_mul_right _ hd
+    omega
+
+theorem entryForm_lit (b0 b1 b2 b3 b4 b5 b6 b7 b8 b9 b10 b11 b12 b13 b14 b15 b16 b17 b18 b19 : UInt8) :
+    entryForm [b0, b1, b2, b3, b4, b5, b6, b7, b8, b9, b10, b11, b12, b13, b14, b15, b16, b17, b18, b19] =
+      if [b0, b1, b2, b3, b4, b5, b6, b7, b8, b9].all isDig = true ∧ b10 = 32 ∧
+         [b11, b12, b13, b14, b15].all isDig = true ∧ b16 = 32 ∧ (b17 = 102 ∨ b17 = 110) ∧
+         ([b18, b19] = [32, 13] ∨ [b18, b19] = [32, 10] ∨ [b18, b19] = [13, 10]) ∧
+         decOf [b11, b12, b13, b14, b15] ≤ 65535
+      then some (decOf [b0, b1, b2, b3, b4, b5, b6, b7, b8, b9], decOf [b11, b12, b13, b14, b15], b17 == 110)
+      else none := by
+  unfold entryForm
+  simp only [List.length_cons, List.length_nil, List.take_succ_cons, List.take_zero, List.drop_succ_cons,
+    List.drop_zero, List.getElem?_cons_succ, List.getElem?_cons_zero, true_and, Option.some.injEq,
+    Nat.reduceAdd]
+  simp
+
+theorem extract_eq (n : Nat) (s : Bytes) (c : Nat) (x r : Bytes) (h : s.drop c = x ++ r)
+    (hx : x.length = n) : extract n s c = (.ok x, c + n) := by
+  have hl : (s.drop c).length = x.length + r.length := by rw [h]; simp
+  simp only [List.length_drop] at hl
+  have : ¬ s.length - c < n := by omega
+  simp only [extract, this, if_false, h]
+  subst hx; simp
+
+theorem exact_byte (b : UInt8) (s : Bytes) (c : Nat) :
+    exact [b] s c = if s[c]? = some b then (.ok (), c + 1) else (.err .guard, c) := by
+  unfold exact
+  cases hd : s.drop c with
+  | nil =>
+    have : s[c]? = none := by
+      have : s.length ≤ c := by simpa using hd
+      exact List.getElem?_eq_none this
+    simp [this]
+  | cons a t =>
+    have : s[c]? = some a := getElem?_of_drop hd
+    by_cases hab : a = b
+    · subst hab; simp [this, List.isPrefixOf]
+    · have : ¬ b = a := fun h => hab h.symm
+      simp [*, List.isPrefixOf]
+
+theorem ent_long (idx : Nat) (s : Bytes) (i : Nat) (h : i + 20 ≤ s.length) :
+    (∀ x, entryAt s i = some x → xrefEntP idx s i = (.ok ⟨mkEnt idx x, i, i + 20⟩, i + 20)) ∧
+    (entryAt s i = none → ∃ c, xrefEntP idx s i = (.err .guard, c)) := by
+  have hsplit : s.drop i = (s.drop i).take 20 ++ s.drop (i + 20) := by
+    rw [← List.drop_drop]; exact (List.take_append_drop 20 _).symm
+  have hw : ((s.drop i).take 20).length = 19 + 1 := by simp; omega
+  have hlen : s.length - i = 20 + (s.length - (i + 20)) := by omega
+  unfold entryAt
+  generalize (s.drop i).take 20 = w at hsplit hw
+  generalize s.drop (i + 20) = rest at hsplit
+  obtain ⟨b0, w0, rfl, hw0⟩ := len_succ (n := 19) hw
+  obtain ⟨b1, w1, rfl, hw1⟩ := len_succ (n := 18) hw0
+  obtain ⟨b2, w2, rfl, hw2⟩ := len_succ (n := 17) hw1
+  obtain ⟨b3, w3, rfl, hw3⟩ := len_succ (n := 16) hw2
+  obtain ⟨b4, w4, rfl, hw4⟩ := len_succ (n := 15) hw3
+  obtain ⟨b5, w5, rfl, hw5⟩ := len_succ (n := 14) hw4
+  obtain ⟨b6, w6, rfl, hw6⟩ := len_succ (n := 13) hw5
+  obtain ⟨b7, w7, rfl, hw7⟩ := len_succ (n := 12) hw6
+  obtain ⟨b8, w8, rfl, hw8⟩ := len_succ (n := 11) hw7
+  obtain ⟨b9, w9, rfl, hw9⟩ := len_succ (n := 10) hw8
+  obtain ⟨b10, w10, rfl, hw10⟩ := len_succ (n := 9) hw9
+  obtain ⟨b11, w11, rfl, hw11⟩ := len_succ (n := 8) hw10
+  obtain ⟨b12, w12, rfl, hw12⟩ := len_succ (n := 7) hw11
+  obtain ⟨b13, w13, rfl, hw13⟩ := len_succ (n := 6) hw12
+  obtain ⟨b14, w14, rfl, hw14⟩ := len_succ (n := 5) hw13
+  obtain ⟨b15, w15, rfl, hw15⟩ := len_succ (n := 4) hw14
+  obtain ⟨b16, w16, rfl, hw16⟩ := len_succ (n := 3) hw15
+  obtain ⟨b17, w17, rfl, hw17⟩ := len_succ (n := 2) hw16
+  obtain ⟨b18, w18, rfl, hw18⟩ := len_succ (n := 1) hw17
+  obtain ⟨b19, w19, rfl, hw19⟩ := len_succ (n := 0) hw18
+  have hnil : w19 = [] := List.eq_nil_of_length_eq_zero hw19
+  subst hnil
+  -- the buffer from each field's offset
+  have e0 : s.drop i = [b0, b1, b2, b3, b4, b5, b6, b7, b8, b9] ++ ([b10, b11, b12, b13, b14, b15, b16, b17, b18, b19] ++ rest) := by rw [hsplit]; rfl
+  have e10 : s.drop (i + 10) = b10 :: ([b11, b12, b13, b14, b15, b16, b17, b18, b19] ++ rest) := by rw [← List.drop_drop, hsplit]; rfl
+  have e11 : s.drop (i + 10 + 1) = [b11, b12, b13, b14, b15] ++ ([b16, b17, b18, b19] ++ rest) := by
+    rw [Nat.add_assoc, ← List.drop_drop, hsplit]; rfl
+  have e16 : s.drop (i + 10 + 1 + 5) = b16 :: ([b17, b18, b19] ++ rest) := by
+    rw [Nat.add_assoc, Nat.add_assoc, ← List.drop_drop, hsplit]; rfl
+  have e17 : s.drop (i + 10 + 1 + 5 + 1) = [b17] ++ ([b18, b19] ++ rest) := by
+    rw [Nat.add_assoc, Nat.add_assoc, Nat.add_assoc, ← List.drop_drop, hsplit]; rfl
+  have e18 : s.drop (i + 10 + 1 + 5 + 1 + 1) = [b18, b19] ++ rest := by
+    rw [Nat.add_assoc, Nat.add_assoc, Nat.add_assoc, Nat.add_assoc, ← List.drop_drop, hsplit]; rfl
+  have hc : i + 10 + 1 + 5 + 1 + 1 + 2 = i + 20 := by omega
+  rw [entryForm_lit]
+  have hAlen : [b0, b1, b2, b3, b4, b5, b6, b7, b8, b9].length = 10 := rfl
+  have hGlen : [b11, b12, b13, b14, b15].length = 5 := rfl
+  have hElen : [b18, b19].length = 2 := rfl
+  clear hsplit hw hw0 hw1 hw2 hw3 hw4 hw5 hw6 hw7 hw8 hw9 hw10 hw11 hw12 hw13 hw14 hw15 hw16 hw17 hw18 hw19
+  generalize [b0, b1, b2, b3, b4, b5, b6, b7, b8, b9] = A at *
+  generalize [b11, b12, b13, b14, b15] = G at *
+  generalize [b18, b19] = E at *
+  by_cases hA : A.all isDig = true
+  · have hAl := decOf_lt _ hA
+    have hA' : ¬ decOf A ≥ usizeLim := by
+      have : usizeLim = 18446744073709551616 := by decide
+      rw [hAlen] at hAl; omega
+    have cA : (∃ x, x ∈ A ∧ isDig x = false) = False := by simpa using hA
+    by_cases h10 : b10 = 32
+    · by_cases hG : G.all isDig = true
+      · have hGl := decOf_lt _ hG
+        have hG' : ¬ decOf G ≥ usizeLim := by
+          have : usizeLim = 18446744073709551616 := by decide
+          rw [hGlen] at hGl; omega
+        have cG : (∃ x, x ∈ G ∧ isDig x = false) = False := by simpa using hG
+        by_cases hgen : decOf G ≤ 65535
+        · have cgen : (65535 < decOf G) = False := by simp; omega
+          by_cases h16 : b16 = 32
+          · by_cases h17 : b17 = 102 ∨ b17 = 110
+            · have c17 : (¬b17 = 102 ∧ ¬b17 = 110) = False := by
+                rcases h17 with h | h <;> simp [h]
+              by_cases hE : (E = [32, 13] ∨ E = [32, 10] ∨ E = [13, 10])
+              · have cE : ((¬E = [32, 13] ∧ ¬E = [32, 10]) ∧ ¬E = [13, 10]) = False := by
+                  rcases hE with h | h | h <;> simp [h]
+                constructor
+                · intro x hx
+                  rw [if_pos ⟨hA, h10, hG, h16, h17, hE, hgen⟩] at hx
+                  obtain rfl := Option.some.inj hx
+                  simp [xrefEntP, andThen_ok, andThen_err, exact_byte, getElem?_of_drop e10, getElem?_of_drop e16, extract_eq 10 s i _ _ e0 hAlen, extract_eq 5 s _ _ _ e11 hGlen, extract_eq 1 s _ _ _ e17 rfl, extract_eq 2 s _ _ _ e18 hElen, hc, isDigit_eq_isDig, decVal_eq_decOf, cA, hA', h10, cG, hG', cgen, h16, c17, cE, mkEnt]
+                · intro hx
+                  rw [if_pos ⟨hA, h10, hG, h16, h17, hE, hgen⟩] at hx
+                  cases hx
+              · have cE : ((¬E = [32, 13] ∧ ¬E = [32, 10]) ∧ ¬E = [13, 10]) = True := by
+                  simp only [not_or] at hE; simp [hE]
+                constructor
+                · intro x hx; simp [hE] at hx
+                · intro _; simp [xrefEntP, andThen_ok, andThen_err, exact_byte, getElem?_of_drop e10, getElem?_of_drop e16, extract_eq 10 s i _ _ e0 hAlen, extract_eq 5 s _ _ _ e11 hGlen, extract_eq 1 s _ _ _ e17 rfl, extract_eq 2 s _ _ _ e18 hElen, hc, isDigit_eq_isDig, decVal_eq_decOf, cA, hA', h10, cG, hG', cgen, h16, c17, cE]
+            · have c17 : (¬b17 = 102 ∧ ¬b17 = 110) = True := by
+                simp only [not_or] at h17; simp [h17]
+              constructor
+              · intro x hx; simp [h17] at hx
+              · intro _; simp [xrefEntP, andThen_ok, andThen_err, exact_byte, getElem?_of_drop e10, getElem?_of_drop e16, extract_eq 10 s i _ _ e0 hAlen, extract_eq 5 s _ _ _ e11 hGlen, extract_eq 1 s _ _ _ e17 rfl, extract_eq 2 s _ _ _ e18 hElen, hc, isDigit_eq_isDig, decVal_eq_decOf, cA, hA', h10, cG, hG', cgen, h16, c17]
+          · constructor
+            · intro x hx; simp [h16] at hx
+            · intro _; simp [xrefEntP, andThen_ok, andThen_err, exact_byte, getElem?_of_drop e10, getElem?_of_drop e16, extract_eq 10 s i _ _ e0 hAlen, extract_eq 5 s _ _ _ e11 hGlen, extract_eq 1 s _ _ _ e17 rfl, extract_eq 2 s _ _ _ e18 hElen, hc, isDigit_eq_isDig, decVal_eq_decOf, cA, hA', h10, cG, hG', cgen, h16]
+        · have cgen : (65535 < decOf G) = True := by simp; omega
+          constructor
+          · intro x hx; simp [hgen] at hx
+          · intro _; simp [xrefEntP, andThen_ok, andThen_err, exact_byte, getElem?_of_drop e10, getElem?_of_drop e16, extract_eq 10 s i _ _ e0 hAlen, extract_eq 5 s _ _ _ e11 hGlen, extract_eq 1 s _ _ _ e17 rfl, extract_eq 2 s _ _ _ e18 hElen, hc, isDigit_eq_isDig, decVal_eq_decOf, cA, hA', h10, cG, hG', cgen]
+      · have cG : (∃ x, x ∈ G ∧ isDig x = false) = True := by simpa using hG
+        constructor
+        · intro x hx; simp [hG] at hx
+        · intro _; simp [xrefEntP, andThen_ok, andThen_err, exact_byte, getElem?_of_drop e10, getElem?_of_drop e16, extract_eq 10 s i _ _ e0 hAlen, extract_eq 5 s _ _ _ e11 hGlen, extract_eq 1 s _ _ _ e17 rfl, extract_eq 2 s _ _ _ e18 hElen, hc, isDigit_eq_isDig, decVal_eq_decOf, cA, hA', h10, cG]
+    · constructor
+      · intro x hx; simp [h10] at hx
+      · intro _; simp [xrefEntP, andThen_ok, andThen_err, exact_byte, getElem?_of_drop e10, getElem?_of_drop e16, extract_eq 10 s i _ _ e0 hAlen, extract_eq 5 s _ _ _ e11 hGlen, extract_eq 1 s _ _ _ e17 rfl, extract_eq 2 s _ _ _ e18 hElen, hc, isDigit_eq_isDig, decVal_eq_decOf, cA, hA', h10]
+  · have cA : (∃ x, x ∈ A ∧ isDig x = false) = True := by simpa using hA
+    constructor
+    · intro x hx; simp [hA] at hx
+    · intro _; simp [xrefEntP, andThen_ok, andThen_err, exact_byte, getElem?_of_drop e10, getElem?_of_drop e16, extract_eq 10 s i _ _ e0 hAlen, extract_eq 5 s _ _ _ e11 hGlen, extract_eq 1 s _ _ _ e17 rfl, extract_eq 2 s _ _ _ e18 hElen, hc, isDigit_eq_isDig, decVal_eq_decOf, cA]
+
+
+
+theorem andThen_eq_panic {α β : Type} {r : Step α} {f : α → Nat → Step β} {p : String} {c : Nat}
+    (h : andThen r f = (.panic p, c)) :
+    r = (.panic p, c) ∨ ∃ v c1, r = (.ok v, c1) ∧ f v c1 = (.panic p, c) := by
+  rcases r with ⟨r, c1⟩
+  cases r with
+  | ok v => exact Or.inr ⟨v, c1, rfl, h⟩
+  | err k => simp [andThen] at h
+  | panic q => simp [andThen] at h; left; simp [h]
+
+theorem extract_ok {n : Nat} {s : Bytes} {c : Nat} {x : Bytes} {c' : Nat}
+    (h : extract n s c = (.ok x, c')) : c' = c + n ∧ n ≤ s.length - c ∧ x.length = n := by
+  unfold extract at h
+  split at h
+  · simp at h
+  · simp only [Prod.mk.injEq, Res.ok.injEq] at h
+    obtain ⟨rfl, rfl⟩ := h
+    refine ⟨rfl, by omega, ?_⟩
+    simp; omega
+
+theorem extract_ne_panic (n : Nat) (s : Bytes) (c : Nat) (p : String) (c' : Nat) :
+    extract n s c ≠ (.panic p, c') := by
+  unfold extract; split <;> simp
+
+theorem exact_ok {tag s : Bytes} {c : Nat} {u : Unit} {c' : Nat}
+    (h : exact tag s c = (.ok u, c')) : c' = c + tag.length ∧ tag.length ≤ s.length - c := by
+  unfold exact at h
+  split at h
+  · rename_i hp
+    simp only [Prod.mk.injEq] at h
+    have := List.IsPrefix.length_le (List.isPrefixOf_iff_prefix.mp hp)
+    simp at this
+    exact ⟨h.2.symm, this⟩
+  · simp at h
+
+theorem exact_ne_panic (tag s : Bytes) (c : Nat) (p : String) (c' : Nat) :
+    exact tag s c ≠ (.panic p, c') := by
+  unfold exact; split <;> simp
+
+/-- a successful entry parse consumed 20 bytes that were there -/
+theorem ent_ok_len (idx : Nat) (s : Bytes) (i : Nat) (e : Located Ent) (c : Nat)
+    (h : xrefEntP idx s i = (.ok e, c)) : i + 20 ≤ s.length := by
+  unfold xrefEntP at h
+  obtain ⟨inf, c1, h1, h⟩ := andThen_eq_ok h
+  split at h
+  · simp at h
+  split at h
+  · simp at h
+  obtain ⟨_, c2, h2, h⟩ := andThen_eq_ok h
+  obtain ⟨gs, c3, h3, h⟩ := andThen_eq_ok h
+  split at h
+  · simp at h
+  split at h
+  · simp at h
+  split at h
+  · simp at h
+  obtain ⟨_, c4, h4, h⟩ := andThen_eq_ok h
+  obtain ⟨flg, c5, h5, h⟩ := andThen_eq_ok h
+  split at h
+  · simp at h
+  · split at h
+    · simp at h
+    · obtain ⟨eol, c6, h6, h⟩ := andThen_eq_ok h
+      have a1 := extract_ok h1
+      have a2 := exact_ok h2
+      have a3 := extract_ok h3
+      have a4 := exact_ok h4
+      have a5 := extract_ok h5
+      have a6 := extract_ok h6
+      simp only [List.length_cons, List.length_nil] at a2 a4
+      omega
+
+theorem ent_no_panic (idx : Nat) (s : Bytes) (i : Nat) (p : String) (c : Nat) :
+    xrefEntP idx s i ≠ (.panic p, c) := by
+  intro h
+  unfold xrefEntP at h
+  rcases andThen_eq_panic h with h | ⟨inf, c1, h1, h⟩
+  · exact extract_ne_panic _ _ _ _ _ h
+  split at h
+  · simp at h
+  split at h
+  · simp at h
+  rcases andThen_eq_panic h with h | ⟨_, c2, h2, h⟩
+  · exact exact_ne_panic _ _ _ _ _ h
+  rcases andThen_eq_panic h with h | ⟨gs, c3, h3, h⟩
+  · exact extract_ne_panic _ _ _ _ _ h
+  split at h
+  · simp at h
+  split at h
+  · simp at h
+  split at h
+  · simp at h
+  rcases andThen_eq_panic h with h | ⟨_, c4, h4, h⟩
+  · exact exact_ne_panic _ _ _ _ _ h
+  rcases andThen_eq_panic h with h | ⟨flg, c5, h5, h⟩
+  · exact extract_ne_panic _ _ _ _ _ h
+  split at h
+  · have := (extract_ok h5).2.2; simp at this
+  · split at h
+    · simp at h
+    · rcases andThen_eq_panic h with h | ⟨eol, c6, h6, h⟩
+      · exact extract_ne_panic _ _ _ _ _ h
+      · split at h <;> simp at h
+
 end Parsley.C13
